@@ -94,7 +94,9 @@ def replay_posmc(rec, verbose=False):
     d = rec["detail"]
     if "crash_argv" in d:
         return replay_crash(d)
-    if "start_fen" in d:
+    if "tree_root" in d:
+        space = "treeline|%s|%s|%d" % (d["tree_root"], d.get("tree_moves", ""), int(d.get("remaining_depth", 1)))
+    elif "start_fen" in d:
         start = d["start_fen"]
         if len(start.split()) == 4:
             start += " 0 1"
@@ -119,8 +121,10 @@ def replay_posmc(rec, verbose=False):
     if verbose:
         print(json.dumps(res["violation_classes"]), json.dumps(res["violations"][:3], indent=1))
     cls = rec["class"]
-    if cls.startswith("C04:same_position") or cls.startswith("C04:pawn_key_not") or cls.startswith("C03:nested"):
-        return None if not res["violation_classes"] else True   # path-dependent classes: single-state replay is only advisory
+    if cls.startswith("C04:same_position") or cls.startswith("C04:pawn_key_not"):
+        return None if not res["violation_classes"] else True   # map-dependent classes: single-state replay is only advisory
+    if cls.startswith("C03:nested"):
+        return any(k.startswith("C03:nested") for k in res["violation_classes"])
     return cls in res["violation_classes"]
 
 
